@@ -98,7 +98,7 @@ func H_ParseTokens() {
 
 var contexts = []string{
 	"f:[# TO 5]", "f:[1 TO #]", "f:{# TO #}", "f:(#)", "(#)", "(#) AND v", "v AND (#)",
-	"NOT #", "f:#", "f:>#", "v #", "# v", "#~2", "#^2", "f:[# TO *]", "-#", "+#", "f:>=#", "v OR #",
+	"NOT #", "f:#", "f:>#", "v #", "# v", "#~2", "#^2", "f:[# TO *]", "-#", "+#", "f:>=#", "v OR #", "v~#", "v^#",
 }
 
 func init() { register("ParseCtx", H_ParseCtx) }
@@ -144,4 +144,110 @@ func H_ParseCtx() {
 // exempt from the no-marker assertions, which are about markers produced by fmt.
 func hasMarkerChars(in string) bool {
 	return strings.Contains(in, "%") && strings.Contains(in, "!")
+}
+
+func init() {
+	register("DeriveTokens", H_DeriveTokens)
+	register("DeriveCtx", H_DeriveCtx)
+}
+
+func dfName(df int) string {
+	if df == 1 {
+		return "f"
+	}
+	return ""
+}
+
+// H_DeriveTokens (C06): every accepted K-token sequence's tree is a derivation of the tokens.
+func H_DeriveTokens() {
+	k := rtParam("K")
+	df := rtParam("DF")
+	var buf []byte
+	var toks []dtok
+	for i := 0; i < k; i++ {
+		c := rtChoose("shape", len(narrowShapes))
+		if i > 0 {
+			buf = append(buf, ' ')
+		}
+		var t dtok
+		buf, t = shapeTok(buf, narrowShapes[c])
+		toks = append(toks, t)
+	}
+	in := string(buf)
+	rtObserve("in", in)
+	e, err := parseOpt(in, df)
+	if err != nil || e == nil {
+		rtReach("rejected")
+		return
+	}
+	rtReach("accepted")
+	d := &deriver{t: toks, df: dfName(df)}
+	rtAssert("derivation", d.derives(e, 0, len(toks)))
+}
+
+// ctxItems describes a context skeleton token by token; "#" is a hole of S free slots.
+var ctxItems = [][]string{
+	{"f", ":", "[", "#", "TO", "5", "]"}, {"f", ":", "[", "1", "TO", "#", "]"}, {"f", ":", "{", "#", "TO", "#", "}"},
+	{"f", ":", "(", "#", ")"}, {"(", "#", ")"}, {"(", "#", ")", "AND", "v"}, {"v", "AND", "(", "#", ")"},
+	{"NOT", "#"}, {"f", ":", "#"}, {"f", ":", ">", "#"}, {"v", "#"}, {"#", "v"}, {"#", "~", "2"}, {"#", "^", "2"},
+	{"f", ":", "[", "#", "TO", "*", "]"}, {"-", "#"}, {"+", "#"}, {"f", ":", ">", "=", "#"}, {"v", "OR", "#"}, {"v", "~", "#"}, {"v", "^", "#"},
+}
+
+func fixedTok(s string) dtok {
+	switch s {
+	case "AND":
+		return dtok{kind: tkAnd, raw: s}
+	case "OR":
+		return dtok{kind: tkOr, raw: s}
+	case "NOT":
+		return dtok{kind: tkNot, raw: s}
+	case "TO":
+		return dtok{kind: tkTo, raw: s}
+	case "f", "v":
+		return dtok{kind: tkTerm, tv: tvString, s: s, raw: s}
+	case "1", "2", "5":
+		return dtok{kind: tkTerm, tv: tvInt, i: int(s[0] - '0'), raw: s}
+	case "*":
+		return dtok{kind: tkTerm, tv: tvWild, s: s, raw: s}
+	}
+	return dtok{kind: tkSym, sym: s[0], raw: s}
+}
+
+// H_DeriveCtx (C06): free slots inside bracket/operator contexts.
+func H_DeriveCtx() {
+	items := ctxItems[rtParam("CTX")]
+	s := rtParam("S")
+	df := rtParam("DF")
+	rtTag("ctx=" + contexts[rtParam("CTX")])
+	var buf []byte
+	var toks []dtok
+	for _, it := range items {
+		if len(buf) > 0 {
+			buf = append(buf, ' ')
+		}
+		if it != "#" {
+			buf = append(buf, it...)
+			toks = append(toks, fixedTok(it))
+			continue
+		}
+		for j := 0; j < s; j++ {
+			c := rtChoose("shape", len(narrowShapes))
+			if j > 0 {
+				buf = append(buf, ' ')
+			}
+			var t dtok
+			buf, t = shapeTok(buf, narrowShapes[c])
+			toks = append(toks, t)
+		}
+	}
+	in := string(buf)
+	rtObserve("in", in)
+	e, err := parseOpt(in, df)
+	if err != nil || e == nil {
+		rtReach("rejected")
+		return
+	}
+	rtReach("accepted")
+	d := &deriver{t: toks, df: dfName(df)}
+	rtAssert("derivation", d.derives(e, 0, len(toks)))
 }
